@@ -727,6 +727,8 @@ func main() {
 	c.Set("rule", "tips = block numbers x VRF outputs x slot lists (+ the nil tip) built with the repository's constructors; for every selector config x fork point: every ordered pair (antisymmetry + outcome where the statement fixes it), every ordered triple (transitivity), every permutation of every 3-subset (and of every 4-subset of a sub-universe) for Preferred/PreferredWithDensity maximality; a case is non-trivial when its tips are pairwise different objects; distinct = distinct (function, config, ordered tuple)")
 	c.Assume("the statement fixes the VRF tie-break only for two non-empty outputs of equal length; empty / different-length outputs, deep forks without a configured window and tips without slot lists are checked for the order laws and maximality only")
 	c.Assume("math/big is trusted (reference arithmetic)")
+	// free-running -race pass: concurrent callers on their own inputs (state the library shares between calls)
+	c.RaceAudit("c41")
 	c.Finish()
 }
 
